@@ -5,13 +5,18 @@ class C06(Prop):
     id = "C06"
     harness = "c06"
     props_file = "Properties/C06.v"
-    coq_modules = ["Stop/Check.v", "Stop/CheckProofs.v", "Stop/GenStop.v", "Stop/GenStopProofs.v", "Stop/GenStopSim.v"]
+    coq_modules = ["Stop/Check.v", "Stop/CheckProofs.v", "Stop/GenStop.v", "Stop/GenStopProofs.v", "Stop/GenStopSim.v",
+                   "Stop/Lifecycle.v", "Stop/LifecycleProofs.v", "Stop/ShutdownTrace.v"]
     level = "proof"
     rule = ("the real lifecycle service of both engines with the real connector/processor/pipeline services on an "
             "in-memory DB behind fake plugins; 10 topologies (1-3 sources, 1-3 destinations, pipeline / connector "
             "processors, a 3-worker processor, DLQ) x 2 engines; a random environment schedule (records handed out in "
             "batches of 1-3, confirmations / refusals of destinations and of the DLQ, store commits held and released) "
-            "and StopAndWait at a random position of it (quick) or at every position (thorough); a quarter of the quick cases "
+            "and StopAndWait at a random position of it (quick) or at every position (thorough); in a third of the cases the "
+            "graceful stop is the engine's shutdown instead (a stop WITH a reason: StopAll(ErrGracefulShutdown) / v2 StopAll(false), "
+            "Wait, persister Wait - the sequence of pkg/conduit/runtime.go), judged by the same monitor at its return; an eighth "
+            "(and 8 corpus cases) are directed: k records read by every source, j confirmed, the rest in flight at unanswering "
+            "destinations when the stop / shutdown arrives; a quarter of the quick cases "
             "(and 6 corpus cases run first) are directed: the source plugin parks the consumption of ack k while it is in "
             "flight, record k+1 is acked by the engine, the stop is issued, the forced flush commits, then the plugin "
             "resumes (k = 1..4, 4 topologies, both engines); an eighth (v2, plus 3 corpus cases) park a batch in unanswering "
@@ -24,7 +29,9 @@ class C06(Prop):
         "Go harness harness/cmd/c06 + harness/lib/stopx (fake plugins with gates, gated in-memory DB, one event log)",
         "python driver verifpy/core.py",
         "hand-written model coq/Stop/Stop.v (one source connector; counters over its records) of the stop protocols; "
-        "tie to the code: acceptor + monitor over the event log of the real services (coq/Stop/Check.v)",
+        "tie to the code: acceptor + monitor over the event log of the real services (coq/Stop/Check.v); "
+        "coq/Stop/Lifecycle.v (the same protocol under a stop with a reason, teardown answers that fail on a cancelled "
+        "context, and restarts) is tied to Stop.v by a projection lemma, to the code by the same monitor",
     ]
     assumptions = [
         "healthy run: no plugin error; every gate is eventually released; in pipelines with several destinations no "
@@ -50,7 +57,7 @@ class C06(Prop):
         evs = (case.get("observed") or {}).get("evs") or []
         reads = packs = 0
         for e in evs:
-            if e["k"] == "call" and e.get("x") == "stopwait":
+            if e["k"] == "call" and e.get("x") in ("stopwait", "shutdown"):
                 return reads > 0 and packs < reads
             reads += e["k"] == "read"
             packs += e["k"] == "pack"
@@ -60,7 +67,9 @@ class C06(Prop):
         i = case["input"]
         o = case.get("observed") or {}
         what = "hang" if o.get("hung") else ("monitor" if code & 2 else "acceptor")
-        return "%s/StopAndWait/%s%s" % (i["topo"]["engine"], what, "/slow-store" if i.get("slow") else "")
+        sched = [s.rstrip("!") for s in i.get("sched") or []]
+        call = "Shutdown" if "shutdown" in sched else "StopAndWait"
+        return "%s/%s/%s%s" % (i["topo"]["engine"], call, what, "/slow-store" if i.get("slow") else "")
 
     def describe(self, case, code):
         i = case["input"]
@@ -72,7 +81,8 @@ class C06(Prop):
 
     def distribution(self, cases):
         d = {"v1": 0, "v2": 0, "slow_store": 0, "stop_with_pending": 0, "stop_idle": 0, "multi_source": 0,
-             "multi_dest": 0, "with_processor": 0, "with_dlq_traffic": 0, "returned_nil": 0}
+             "multi_dest": 0, "with_processor": 0, "with_dlq_traffic": 0, "returned_nil": 0, "shutdown_with_reason": 0,
+             "shutdown_with_pending": 0}
         for c in cases:
             i, o = c["input"], c.get("observed") or {}
             d[i["topo"]["engine"]] += 1
@@ -82,7 +92,10 @@ class C06(Prop):
             d["with_processor"] += (i["topo"].get("procs") or 0) > 0 or bool(i["topo"].get("src_proc"))
             evs = o.get("evs") or []
             d["with_dlq_traffic"] += any(e["k"] == "qwrite" for e in evs)
-            d["returned_nil"] += any(e["k"] == "ret" and e.get("x") == "stopwait" and e.get("a") == "nil" for e in evs)
+            d["returned_nil"] += any(e["k"] == "ret" and e.get("x") in ("stopwait", "shutdown") and e.get("a") == "nil" for e in evs)
+            shut = any(e["k"] == "call" and e.get("x") == "shutdown" for e in evs)
+            d["shutdown_with_reason"] += shut
+            d["shutdown_with_pending"] += shut and self.nontrivial(c)
             if self.nontrivial(c):
                 d["stop_with_pending"] += 1
             else:
